@@ -606,7 +606,8 @@ def x7(prog: Program, chk: Check) -> None:
     for st in walk_local(cf.node):
         if isinstance(st, ast.Assign) and isinstance(st.value, ast.Call) and \
                 (dotted(st.value.func) or "").endswith("vlen_dtype"):
-            dts[dotted(st.targets[0])] = norm(st.value.args[0])
+            _du7 = DefUse(cf, CFG(cf.node, exc_edges=False))
+            dts[dotted(st.targets[0])] = norm(expand(_du7, _du7.node_of(st.value), st.value.args[0]))
     # the two variable-length element types, identified by what they hold
     by_elem = {v: k for k, v in dts.items()}
     data_t, shape_t = by_elem.get("np.dtype('complex128')"), by_elem.get("np.dtype('i')")
